@@ -404,7 +404,7 @@ Expansion model_expand(const std::string &fmt, long dsmax, long total_max, CallC
             if (v.failed) piece = "[ERROR: Data source '" + name + "' failed with the following error message: '" + piece + "']";
             for (auto &o : outs) nouts.push_back(o + piece);
         }
-        if (nouts.size() > 64) nouts.resize(64);
+        if (nouts.size() > 4096) nouts.resize(4096);   // 64 thread counts x two answers for each of tty, tty_uid, tty_username have to fit
         outs = nouts;
         x.shape += v.failed ? "F" : (name == "snoopy_literal" ? "S" : name == "env" ? "E" : name == "cmdline" ? "C" : name == "filename" ? "N" : "D");
         pos = e + 1;
